@@ -64,7 +64,7 @@ def extra(ctx):
     import sys
     for n in (40, 254, 255, 256, 257, 300, 1000):
         for documented in (False, True):
-            item = {"k": "addtest", "pre": [f"arg{j}" for j in range(n)], "name": f"far_right_{n}", "post": ["COMMAND", "run_it"],
+            item = {"k": "addtest", "pre": [f"--case=matrix_{j:04d}_of_the_run" for j in range(n)], "name": f"far_right_{n}", "post": ["COMMAND", "run_it"],
                     "doc": {"lines": [f"Far right. FARDOC{n}M"], "form": "leader", "marker": f"FARDOC{n}M"} if documented else None}
             case = {"module": {"moddoc": None, "items": [item]}, "layout": [], "twins": False}
             r = safe_evaluate(sys.modules[__name__], case)
